@@ -248,18 +248,25 @@ def genericDiff (O : Oracle) (recur : Recur) (cfg : Cfg) (path : String) (a b : 
   | .str sa, .str sb => stringsLinewise O recur sa sb
   | _, _ => .error (.runtime "Can currently only diff list, dict, or str objects.")
 
+/-- `isinstance(avalue, str) and avalue == bvalue` -/
+def sameStr : J → J → Bool
+  | .str x, .str y => x == y
+  | _, _ => false
+
 /-- `add_mime_diff` (its `diff` call uses a fresh default config) -/
 def addMimeDiff (O : Oracle) (recur : Recur) (key : String) (av bv : J) (di : List (String × Op)) :
     Except Err (List (String × Op)) :=
-  let sameStr := match av, bv with
-    | .str x, .str y => x == y
-    | _, _ => false
-  if sameStr then .ok di
+  if sameStr av bv then .ok di
   else if mimeSplit key then do
     let dd ← genericDiff O recur defaultCfg "" av bv
     mapPatch di key dd
   else if !J.pyEq av bv then mapAppend di (.replace key bv)
   else .ok di
+
+/-- one common key of `diff_mime_bundle` -/
+def mimeStep (O : Oracle) (recur : Recur) (ak bk : List (String × J)) (di : List (String × Op)) (k : String) :
+    Except Err (List (String × Op)) :=
+  addMimeDiff O recur k ((lookupKV k ak).getD .null) ((lookupKV k bk).getD .null) di
 
 /-- `diff_mime_bundle` -/
 def mimeBundle (O : Oracle) (recur : Recur) (a b : J) : Except Err (List Op) :=
@@ -268,11 +275,16 @@ def mimeBundle (O : Oracle) (recur : Recur) (a b : J) : Except Err (List Op) :=
       let (rem, both, add) := listDiffKeys ak bk
       let di : List (String × Op) := []
       let di ← rem.foldlM (fun di k => mapAppend di (.remove k)) di
-      let di ← both.foldlM (fun di k =>
-        addMimeDiff O recur k ((lookupKV k ak).getD .null) ((lookupKV k bk).getD .null) di) di
+      let di ← both.foldlM (mimeStep O recur ak bk) di
       let di ← add.foldlM (fun di k => mapAppend di (.add k ((lookupKV k bk).getD .null))) di
       pure (mapValidated di)
   | _, _ => .error (.typeErr "MIME bundles should be dictionaries")
+
+/-- one common key of `diff_attachments` -/
+def attachStep (O : Oracle) (recur : Recur) (ak bk : List (String × J)) (di : List (String × Op)) (k : String) :
+    Except Err (List (String × Op)) := do
+  let dd ← mimeBundle O recur ((lookupKV k ak).getD .null) ((lookupKV k bk).getD .null)
+  mapPatch di k dd
 
 /-- `diff_attachments` -/
 def attachmentsDiff (O : Oracle) (recur : Recur) (path : String) (a b : J) : Except Err (List Op) :=
@@ -282,9 +294,7 @@ def attachmentsDiff (O : Oracle) (recur : Recur) (path : String) (a b : J) : Exc
       let (rem, both, add) := listDiffKeys ak bk
       let di : List (String × Op) := []
       let di ← rem.foldlM (fun di k => mapAppend di (.remove k)) di
-      let di ← both.foldlM (fun di k => do
-        let dd ← mimeBundle O recur ((lookupKV k ak).getD .null) ((lookupKV k bk).getD .null)
-        mapPatch di k dd) di
+      let di ← both.foldlM (attachStep O recur ak bk) di
       let di ← add.foldlM (fun di k => mapAppend di (.add k ((lookupKV k bk).getD .null))) di
       pure (mapValidated di)
   | _, _ => .error (.typeErr "Attachments stores should be dictionaries")
